@@ -48,6 +48,10 @@ def main():
     notes = []
 
     # 0. data translated from the source on every run
+    # (every property: the Lean modules import one another, so all translated files must describe the CURRENT source before anything is built)
+    sys.path.insert(0, os.path.join(C.VERIF, "tools"))
+    import extract
+    extract.main()
     if hasattr(mod, "regenerate"):
         mod.regenerate()
 
@@ -58,7 +62,12 @@ def main():
     if not a.skip_lean:
         rc, out, err = C.lake_build([lean_module, "urandom_model"])
         if rc != 0:
-            problems.append(("proof", "lake build %s failed" % lean_module, {"theorem_module": lean_module, "log": (out + err)[-3000:]}))
+            first_err = next((l for l in (out + err).split("\n") if l.startswith("error:") and ".lean" in l), "")
+            gen = os.path.join(C.LEAN_DIR, "Urandom", "Generated", "Simd.lean")
+            tr = ""
+            if os.path.exists(gen) and "could not translate" in open(gen).read():
+                tr = "; the SIMD translator could not read the current source: " + open(gen).read().split("could not translate the current source:")[1].split("-/")[0].strip()[:300]
+            problems.append(("proof", "lake build %s failed (%s)%s" % (lean_module, first_err[:300], tr), {"theorem_module": lean_module, "log": (out + err)[-3000:]}))
         else:
             obligations, discharged, ax_details, bad = C.axiom_audit(lean_module)
             for b in bad:
